@@ -441,6 +441,36 @@ def r8_shared_reader_counts(ctx):
     for o in c04.r1_wiring(ctx):
         yield o
 
+def r9_reader_errors_before_close(ctx):
+    """the acknowledgement code of a set / group / interchange is fixed when its loop is closed (err_x.close): the
+    reader's errors about the trailer (count, control number, unterminated loops) must have been handed to the error
+    tree before - in each trailer branch handle_errors(src.pop_errors()) dominates close_*_loop, and nothing is
+    popped from the reader after the close in that branch"""
+    fn = ctx.func('x12n_document', 'x12n_document')
+    g = ctx.cfg(fn)
+    dom = g.dominators()
+
+    def find(pred):
+        return [nd for nd in g.nodes if any(isinstance(x, ast.Call) and pred(x) for x in g.walk_exprs(nd))]
+    handles = find(lambda c: A.call_target(c)[1] == 'handle_errors' and c.args and isinstance(c.args[0], ast.Call)
+                   and A.call_target(c.args[0])[1] == 'pop_errors')
+    if len(handles) < 4:
+        raise AnalysisError('x12n_document: handle_errors(src.pop_errors()) sites not found')
+    for lvl in ('isa', 'gs', 'st'):
+        closes = find(lambda c, lvl=lvl: A.call_target(c)[1] == 'close_%s_loop' % lvl)
+        if len(closes) != 1:
+            raise AnalysisError('x12n_document: close_%s_loop call not found' % lvl)
+        cl = closes[0]
+        blk_owner = A.parent(cl.stmt)
+        same_block = [h for h in handles if A.parent(h.stmt) is blk_owner]
+        before = [h for h in same_block if h.id in dom[cl.id]]
+        after = [h for h in same_block if cl.id in dom[h.id]]
+        ok = bool(before) and not after
+        yield Ob('x12n_document:x12n_document reader errors reach the error tree before close_%s_loop' % lvl, ok, ctx.floc(fn, cl.stmt),
+                 '' if ok else ('the reader\'s errors are handled only after the loop was closed: its acknowledgement code is already fixed '
+                                'and says accepted while an error is itemised' if after else 'no handle_errors(src.pop_errors()) before the close in this branch'))
+
+
 RULES = [
     Rule('C05.R1', 'verdict True only through valid and error-count-zero edges; other exits False', r1_verdict, floor=3),
     Rule('C05.R2', 'sibling "has errors" deciders consult every stored evidence field', r2_evidence, floor=6),
@@ -450,4 +480,5 @@ RULES = [
     Rule('C05.R6', 'AK9 totals wiring and 997/999 sibling agreement', r6_totals, floor=9),
     Rule('C05.R7', 'error sinks record or fail loudly; add_error arity agrees across current-node classes', r7_sinks_do_not_swallow, floor=6),
     Rule('C05.R8', 'shared with C04.R1: the received-set count the acknowledgement reports is the reader\'s, counted unconditionally', r8_shared_reader_counts, floor=37),
+    Rule('C05.R9', 'reader errors are handed to the error tree before the loop they concern is closed', r9_reader_errors_before_close, floor=3),
 ]
